@@ -157,6 +157,13 @@ func init() {
 		types:    map[string]string{"time.Time": "Int", "time.Duration": "Int", "bool": "Bool", "int64": "Int"},
 		captures: map[string]string{"currentVersion": "Int"},
 	}
+	// K6 for the transitions and the admission (C09, C01): circuit.go once more, over interference primitives
+	units["GoCallI"] = &unit{
+		name: "GoCallI", file: "circuit.go", recv: "Circuit",
+		funcs:   []string{"IsOpen", "openCircuit", "close", "attemptToOpen", "allowNewRun", "checkSuccess", "checkErrFailure"},
+		imports: []string{"CircuitModel.GoCallConcPrims"}, open: []string{"CM", "CM.Go", "CM.GoCallI"}, vars: "", monad: "KM",
+		types: map[string]string{"context.Context": "Unit", "time.Time": "Int", "time.Duration": "Int", "error": "(Option Nat)", "bool": "Bool"},
+	}
 	never := []string{"Success", "ErrFailure", "ErrTimeout", "ErrBadRequest", "ErrInterrupt", "ErrConcurrencyLimitReject", "ErrShortCircuit", "Opened", "Closed"}
 	units["GoNeverOpens"] = &unit{name: "GoNeverOpens", file: "closers.go", recv: "neverOpens", funcs: append([]string{"Prevent", "ShouldOpen"}, never...),
 		imports: []string{"CircuitModel.GoLiveLogicPrims"}, open: []string{"CM", "CM.Go", "CM.GoNever"}, vars: "", monad: "NM", types: consumerTypes}
